@@ -469,6 +469,23 @@ func checkC06(ctx *RunCtx) int {
 			for i := range c.Personas {
 				c.Personas[i] = personaMinRaiser
 			}
+			unit, top := c.BB, int64(0)
+			if c.Dl > unit {
+				unit = c.Dl
+			}
+			for _, b := range c.Banks {
+				if b > top {
+					top = b
+				}
+			}
+			if r.Intn(4) == 0 && unit > 0 && top <= 400*unit {
+				// a raising war that only ends when the chips are in: the minimum raise, every time (on tables
+				// where that takes a few hundred raises at most - the driver's step bound is 6000)
+				for i := range c.Personas {
+					c.Personas[i] = personaWar
+				}
+				c.Hostile = false
+			}
 		}
 		boardPlaysTweak(c, r)
 	}
